@@ -178,12 +178,7 @@ def build(tr, real_locks):
     st.setProp(YowIqProtocolLayer.PROP_PING_INTERVAL, 0)
     st.setProp("profile", ST.StubProfile())
     mgr = ST.ManagerStub(True)
-    for l in insts:
-        if hasattr(l, "_manager"):
-            l._manager = mgr
-        for s in getattr(l, "sublayers", ()):
-            if hasattr(s, "_manager"):
-                s._manager = mgr
+    ST.wire_manager(st, mgr)
     iq = [s for s in insts[-2].sublayers if type(s).__name__ == "YowIqProtocolLayer"][0]
     tr.phase = "send"
     return st, insts, disp, iq, key
